@@ -32,7 +32,7 @@ THEOREMS = [f'Gnpy.Fiber.{t}' for t in (
     'pmd_quadrature', 'pdl_quadrature', 'path_order_irrelevant', 'fibre_pmd_sq', 'fibre_pdl_unchanged', 'latency_formula',
     'cd_at_ref')] + [f'Gnpy.Raman.{t}' for t in (
     'euler_zero_cr', 'eulerFactor_bounds', 'perturbative_zero_cr', 'perturbGo_zero_cr', 'perturbative_zero_cr_grid',
-    'perturbative_low_power',
+    'perturbative_low_power', 'gamma1_bound', 'createLumped_prod', 'euler_budget',
     'counterprop_gain_only_partial', 'gamma1_nonneg')]
 RULE = ('cases from one PRNG: (a) one span: random fibre (0.1-300 km in km or m, scalar or per-frequency loss, 0-3 lumped '
         'losses, ~6 % with two lumped losses at one position, connectors, padding, dispersion +/-/slope/table) x comb of 1-24 '
@@ -62,6 +62,18 @@ PARTIAL = [
     'result grid are under correspondence / monitor only',
     'lumped loss counted once with Raman on: theorem for Raman off (lumped_once) and for Euler at zero Raman efficiency '
     '(euler_zero_cr: every lumped factor of the grid exactly once); with Raman on at finite power: monitor at low power']
+
+MANIFEST = {
+    'text': ('Raman off: theorems over the reals for every fibre and path: the span attenuates by exactly padding + connectors + '
+             'length x loss coefficient + all lumped losses (each once, also when they share a position), CD and latency '
+             'add linearly, PMD/PDL in quadrature over fibres, ROADMs and amplifiers, all four independent of the element '
+             'order; tied to Fiber/Roadm/Edfa objects by the correspondence check and a monitor. Raman on: the '
+             'unidirectional solver (explicit Euler, perturbative orders 0-4 with lumped losses) is modelled and under '
+             'correspondence; proved: at zero Raman efficiency Euler is the grid product within 2 a^2 sum dz^2 Neper of the '
+             'budget and the perturbative method is exactly the budget with each lumped loss once; first-order term linear '
+             'in the power scale and non-negative for non-negative efficiencies. "Methods agree", the gain-only statement at '
+             'full order and the iterative co/counter algorithm are covered by the monitor only (see level_note).'),
+}
 
 SIM_OFF = {'raman_params': {'flag': False}, 'nli_params': {'method': 'gn_model_analytic'}}
 POL_RANGE = (190e12, 200e12)
